@@ -34,6 +34,8 @@ pub enum DupKind {
     BothCarriers,
     /// header carrier with an X-Amz-Security-Token QUERY parameter carrying another token
     QueryTokenOnHeaderCarrier,
+    /// query carrier (token in the query) with an X-Amz-Security-Token HEADER carrying another token, signed or not
+    TokenHeaderOnQueryCarrier,
 }
 
 const KINDS: &[DupKind] = &[
@@ -54,6 +56,7 @@ const KINDS: &[DupKind] = &[
     DupKind::TokenHeader,
     DupKind::BothCarriers,
     DupKind::QueryTokenOnHeaderCarrier,
+    DupKind::TokenHeaderOnQueryCarrier,
 ];
 
 #[derive(Clone, Debug, Serialize, Deserialize)]
@@ -104,7 +107,7 @@ pub fn make_case_kind(mut plan: Plan, kind_index: usize, decoy_first: bool, befo
                     let kind = KINDS[kind_index % KINDS.len()];
                     use DupKind::*;
                     // put the plan on the carrier the duplicate kind is about
-                    let want_query = matches!(kind, QCredential | QDate | QSignedHeaders | QSignature | QToken | QAlgorithm);
+                    let want_query = matches!(kind, QCredential | QDate | QSignedHeaders | QSignature | QToken | QAlgorithm | TokenHeaderOnQueryCarrier);
                     let want_header = matches!(kind, AuthHeaderOtherScheme | AuthHeaderAws4Decoy | InnerCredential | InnerSignedHeaders | InnerSignature | XAmzDateHeader | DateHeaderBesideXAmzDate | XAmzDateBesideDateHeader | TokenHeader | QueryTokenOnHeaderCarrier);
                     if want_query && plan.spec.carrier != Carrier::Query || want_header && plan.spec.carrier != Carrier::Header {
                         plan.spec.carrier = if want_query { Carrier::Query } else { Carrier::Header };
@@ -134,7 +137,13 @@ pub fn make_case_kind(mut plan: Plan, kind_index: usize, decoy_first: bool, befo
                             plan.spec.signed_headers.sort();
                         }
                     }
-                    if matches!(kind, TokenHeader | QToken | QueryTokenOnHeaderCarrier) && plan.spec.token.is_none() {
+                    if kind == TokenHeaderOnQueryCarrier && before_signing && decoy_delta_s % 2 == 0 {
+                        // the decoy header is there before signing and is listed in X-Amz-SignedHeaders
+                        plan.spec.signed_headers.push("x-amz-security-token".into());
+                        plan.spec.signed_headers.sort();
+                        plan.spec.signed_headers.dedup();
+                    }
+                    if matches!(kind, TokenHeader | QToken | QueryTokenOnHeaderCarrier | TokenHeaderOnQueryCarrier) && plan.spec.token.is_none() {
                         plan.spec.token = Some("genuine/token+1==".into());
                         plan.entry.token = plan.spec.token.clone();
                     }
@@ -231,6 +240,8 @@ fn apply_dup(dc: &DupCase, req: &mut WireRequest, signed: bool) {
                             0 => ", ".to_string(),
                             1 => format!("x{}={}, ", i, i),
                             2 => format!("Scope{}=, ", i),
+                            // what two Authorization lines look like after an intermediary has joined them with ", "
+                            3 if i % 2 == 0 => format!("AWS4-HMAC-SHA256 Credential={}, ", decoy_cred),
                             _ => format!("p{}=v, ", i),
                         });
                     }
@@ -249,6 +260,7 @@ fn apply_dup(dc: &DupCase, req: &mut WireRequest, signed: bool) {
         XAmzDateBesideDateHeader => insert_header(req, "X-Amz-Date", &decoy_ts, dc.decoy_first, "date"),
         TokenHeader => insert_header(req, "X-Amz-Security-Token", "decoy/token", dc.decoy_first, "x-amz-security-token"),
         QueryTokenOnHeaderCarrier => insert_query(req, p.cfg.fold, dc.in_body, "X-Amz-Security-Token=decoy%2Ftoken", dc.decoy_first),
+        TokenHeaderOnQueryCarrier => insert_header(req, "X-Amz-Security-Token", "decoy/token", dc.decoy_first, "host"),
         BothCarriers => {
             if p.spec.carrier == Carrier::Header {
                 // the other carrier's marker, with the proper value or an empty / foreign one
@@ -338,6 +350,7 @@ pub fn check_dup(dc: &DupCase, cc: &mut CaseCtx) -> CheckResult {
         TokenHeader => "token-header",
         BothCarriers => "both-carriers",
         QueryTokenOnHeaderCarrier => "query-token-on-header-carrier",
+        TokenHeaderOnQueryCarrier => "token-header-on-query-carrier",
     };
     if !a.verdict().is_specified() {
         cc.unspecified = true;
